@@ -407,6 +407,9 @@ Section Sem.
   Lemma run_sem_fspec s : Pfspec s.
   Proof. exact (fspec_ind' Ppat Pfspec Pvpat case_T case_A case_V case_S case_VT case_VV case_VN case_VR s). Qed.
 
+  Lemma run_sem_vpat vp : Pvpat vp.
+  Proof. exact (vpat_ind' Ppat Pfspec Pvpat case_T case_A case_V case_S case_VT case_VV case_VN case_VR vp). Qed.
+
   (* the core theorem *)
   Theorem run_sem p m :
     compile ct re_ok true p = inl m -> forall v ctx, run m v ctx = pm_pat p v ctx.
@@ -415,6 +418,14 @@ Section Sem.
     inversion E; subst. exact (proj2 (proj2 (run_sem_pat p _ _ _ E1))).
   Qed.
 End Sem.
+
+(* what compile produces for a value: an unnamed matcher that is neither AnyMatcher nor SequenceMatcher *)
+Lemma run_sem_vpat_shape ct re_ok vp seen m seen' :
+  c_vpat ct re_ok true vp seen = COk m seen' -> mname m = None /\ msimple m = true.
+Proof.
+  intros E. destruct (run_sem_vpat (fun s => s) ct re_ok (fun _ _ => true) (fun _ => []) vp seen m seen' E) as [A [B _]].
+  split; assumption.
+Qed.
 
 (* ------------------------------------------------------------------ MultiPatternMatcher *)
 Section Multi.
